@@ -245,11 +245,6 @@ package ggql
 //@   requires recv != nil
 //@   requires x != nil && ptrval(x) != 0
 
-//@ func (*Input).reflectSet
-//@   props C03
-//@   check panic {C03}
-//@   requires recv != nil
-
 //@ func (*Union).Write
 //@   props C03
 //@   check panic {C03}
@@ -296,6 +291,7 @@ package ggql
 //@   check panic {C03}
 //@   requires recv != nil
 //@   requires root != nil
+//@   requires[own-name-registered] dirName(recv.N)
 
 //@ func (*Enum).AddValue
 //@   props C03
